@@ -5,6 +5,9 @@
    - a valid single run executes one circuit as one job on the wrapped runner; a valid batch of k circuits executes k circuits
      (the base class runs them one by one: k jobs); a valid sampled-distribution request is one run;
    - the wrapper counts one circuit and one job per single run, k circuits and one job per batch, nothing for a distribution request;
+   - a request that passes validation but whose backend fails part-way (the wrapped runner raises for one circuit) surfaces as an error; the wrapped runner has counted exactly the
+     circuits it completed before the failure, nothing is taken back (round 6: RunFail, BatchFail0of2 = [P, ok], BatchFail2of3 = [ok, ok, P]); what the wrapper counts for a failed call is
+     not fixed by the statement (the replay only demands that its counters do not decrease) - the model keeps them unchanged;
    - counters never decrease.
    TLC enumerates the whole state graph below MaxC; /verif/mc/tlc.py replays EVERY edge against the real classes. *)
 EXTENDS Naturals
@@ -24,8 +27,11 @@ BatchBadLength == UNCHANGED vars
 BatchBadEntry == UNCHANGED vars
 DistOk == ic + 1 <= MaxC /\ ic' = ic + 1 /\ ij' = ij + 1 /\ UNCHANGED <<tc, tj>>
 DistBad == UNCHANGED vars
+RunFail == UNCHANGED vars
+BatchFail0of2 == UNCHANGED vars
+BatchFail2of3 == ic + 2 <= MaxC /\ ic' = ic + 2 /\ ij' = ij + 2 /\ UNCHANGED <<tc, tj>>
 
-Next == RunOk \/ RunBad \/ BatchOk0 \/ BatchOk1 \/ BatchOk2 \/ BatchOk3 \/ BatchBadLength \/ BatchBadEntry \/ DistOk \/ DistBad
+Next == RunOk \/ RunBad \/ BatchOk0 \/ BatchOk1 \/ BatchOk2 \/ BatchOk3 \/ BatchBadLength \/ BatchBadEntry \/ DistOk \/ DistBad \/ RunFail \/ BatchFail0of2 \/ BatchFail2of3
 Spec == Init /\ [][Next]_vars
 
 TypeOK == ic \in 0..MaxC /\ ij \in 0..MaxC /\ tc \in 0..MaxC /\ tj \in 0..MaxC
